@@ -27,6 +27,66 @@ void freeAllMemory(primesieve::iterator* it)
   }
 }
 
+/// If generate_next_primes() or generate_prev_primes() exits
+/// with an exception (e.g. next prime > 2^64, std::bad_alloc)
+/// this guard repositions the iterator at the position it had
+/// before the call, so that the failed call has no effect and
+/// the iterator remains usable: the next next_prime() returns
+/// the first prime > pos and the next prev_prime() returns the
+/// first prime < pos (>= pos and <= pos if include is set).
+///
+class RollbackGuard
+{
+public:
+  RollbackGuard(primesieve::iterator* it, bool isNext) :
+    it_(it),
+    pos_(it->start_)
+  {
+    using primesieve::IteratorData;
+
+    // Current position: the largest (next) or smallest (prev)
+    // prime of the primes array, or the start number if the
+    // primes array is empty.
+    if (it->size_ > 0)
+    {
+      pos_ = isNext ? it->primes_[it->size_ - 1] : it->primes_[0];
+      include_ = false;
+    }
+    else if (it->memory_)
+      include_ = ((IteratorData*) it->memory_)->include_start_number;
+  }
+
+  void success() { success_ = true; }
+
+  ~RollbackGuard()
+  {
+    if (success_)
+      return;
+
+    it_->i_ = 0;
+    it_->size_ = 0;
+    it_->start_ = pos_;
+    it_->primes_ = nullptr;
+
+    if (it_->memory_)
+    {
+      using primesieve::IteratorData;
+      auto& iterData = *(IteratorData*) it_->memory_;
+      iterData.stop = pos_;
+      iterData.dist = 0;
+      iterData.include_start_number = include_;
+      iterData.deletePrimeGenerator();
+      iterData.deletePrimes();
+    }
+  }
+
+private:
+  primesieve::iterator* it_;
+  uint64_t pos_;
+  bool include_ = true;
+  bool success_ = false;
+};
+
 } // namespace
 
 namespace primesieve {
@@ -123,6 +183,8 @@ iterator::~iterator()
 
 void iterator::generate_next_primes()
 {
+  RollbackGuard guard(this, /* isNext */ true);
+
   if (!memory_)
     memory_ = new IteratorData(start_);
 
@@ -150,12 +212,17 @@ void iterator::generate_next_primes()
     if_unlikely(size_ == 0)
       iterData.deletePrimeGenerator();
     else
+    {
+      guard.success();
       return;
+    }
   }
 }
 
 void iterator::generate_prev_primes()
 {
+  RollbackGuard guard(this, /* isNext */ false);
+
   if (!memory_)
     memory_ = new IteratorData(start_);
 
@@ -181,6 +248,8 @@ void iterator::generate_prev_primes()
     i_ = size_;
   }
   while (!size_);
+
+  guard.success();
 }
 
 } // namespace
